@@ -41,6 +41,10 @@ def attributed_props(f, fns_meta):
         return f['props']
     meta = fns_meta.get(f['fn'], {})
     fp = meta.get('props', [])
+    if f['kind'] == 'callee-pre' and 'is reachable' in f['clause'] and 'vstd' in f['clause']:
+        # a panic!/unreachable!/assert!/todo! of the repo's own text that the verifier cannot show dead: panic-freedom (C05),
+        # whatever the function's other properties
+        return sorted(set(['C05'] + [p for p in fp if p == 'C05']))
     if f['kind'] in IMPLICIT_KINDS or (f['kind'] == 'callee-pre' and 'vstd' in f['clause']):
         return ['C05'] if 'C05' in fp else fp
     # an untagged proof step (ghost assert, untagged invariant) supports the functional clauses of the function, not its
